@@ -110,3 +110,8 @@ check('C19', 'exploration', 'exhaustive enumeration of the key x source table + 
       'tick arithmetic, frame classification); generated paths are classified under generated prefix sets supplied as list, '
       'string or environment text and compared with the statement\'s classifier.',
       'deep.config is reloaded per row; TLS credentials are not exercised, only the secure/insecure choice.')
+check('C08', 'exploration', 'property-based testing: independent projection (differential) + serialisation round-trip + metadata invariant at a fake channel',
+      'Collector-produced and synthetic snapshots are pushed through the real PushService/TaskHandler to a fake channel; the '
+      'bytes it received are re-parsed and compared field by field with a projection of the Python snapshot written from '
+      'the .proto field list; every poll and send must carry exactly the configured provider\'s metadata.',
+      'Transport below the channel object (HTTP/2, TLS) is not exercised; unencodable text only has to be present.')
